@@ -574,6 +574,7 @@ def step (st : St) (line : String) : St × String :=
           else if status = "hang" && mtext = itext && (ms.getLast?.map (·.more)).getD false then (st, "ok")
           else (st, s!"DIS ok | {mtext}")
         | .error .loops => (st, "DIS loops")
+        | .error .overflow => (st, "DIS overflow")   -- cursor level only: never an outcome of the size-level model
         -- the device gives up: a request gets no (complete) answer, a report is not sent
         | .error .noSpace => if status = "hang" || (o.report && status.startsWith "none:") then (st, "ok") else (st, "DIS nospace")
         | .error .tooBig => if status = "hang" || (o.report && status.startsWith "none:") then (st, "ok") else (st, "DIS toobig")
